@@ -23,7 +23,7 @@ BUDGET = {"quick": 900, "thorough": 7200}
 
 
 def plan(tier):
-    n = 70 if tier == "quick" else 3000
+    n = 140 if tier == "quick" else 3000
     return [{"kind": "hyp", "n": n} for _ in range(16)]
 
 
@@ -32,7 +32,7 @@ def cases(draw):
     lit = draw(st.integers(0, 9)) == 0
     k = draw(st.integers(1, 4))
     n = draw(st.integers(k, 6))
-    seg = draw(st.sampled_from([k * 8, k * 16, 64, 100]))
+    seg = draw(st.sampled_from([k * 8, k * 16, 64, 100, 100, 1024, 2048]))
     if lit:
         size = draw(st.integers(0, 55))
         nseg = 1
